@@ -259,7 +259,7 @@ pub fn case_scaled(s: Shape, v: &[u32], unit: u32) -> (u64, u64, Option<(String,
     }
     // two selections from the same combination value: independent, each with the law above
     let mut extra_leaves = 0;
-    if st.leaves * st.leaves <= 200_000 && unit == 1 {
+    if st.leaves * st.leaves <= 200_000 && unit == 1 && w.len() <= 40 {
         let mut law2: Law<usize> = Law::new();
         let mut other = false;
         TWICE.with(|t| t.set(true));
@@ -455,6 +455,31 @@ pub fn run(run: &mut Run) {
         }
     }
     run.note("dyn_scenarios_with_weights_above_u32", json!(dyn_cases.len()));
+    // long dynamic lists (one draw over the grid of the total decides: exact law, exactly one member asked)
+    let long_k: Vec<usize> = if quick { (6usize..=40).chain([63, 64, 65, 127, 128, 129, 255, 256, 257]).collect() } else { (6usize..=130).chain([255, 256, 257, 511, 512, 513, 1000]).collect() };
+    let long_lists: Vec<(Shape, Vec<u32>)> = long_k
+        .iter()
+        .flat_map(|k| {
+            let ones: Vec<u32> = vec![1; *k];
+            let mixed: Vec<u32> = (0..*k).map(|i| [1u32, 0, 2, 3][i % 4]).collect();
+            let last_only: Vec<u32> = (0..*k).map(|i| u32::from(i + 1 == *k)).collect();
+            [(Shape::Dyn, ones), (Shape::DynStep, mixed.clone()), (Shape::Dyn, mixed), (Shape::Dyn, last_only)]
+        })
+        .collect();
+    let long_results = mcx::par_map(long_lists.len(), |i| case_scaled(long_lists[i].0, &long_lists[i].1, 1));
+    for (i, (leaves, cps, v, _)) in long_results.into_iter().enumerate() {
+        run.evaluations += leaves;
+        run.transitions += cps;
+        if let Some((k, w)) = v {
+            if k.starts_with("machinery/") {
+                run.machinery(w);
+                continue;
+            }
+            let w: String = w.chars().take(900).collect();
+            run.violation(k.replacen("weighted/", "weighted/long/", 1), w, json!({"check":"C13","scenario":"law","shape":format!("{:?}", long_lists[i].0),"weights":long_lists[i].1}));
+        }
+    }
+    run.bound("long_dynamic_lists", json!(if quick { "6..=40, 63..=65, 127..=129, 255..=257 members; weights all 1 / (1,0,2,3) repeating / only the last non-zero" } else { "6..=130, 255..=257, 511..=513, 1000 members; weights all 1 / (1,0,2,3) repeating / only the last non-zero" }));
     run.bound("dyn_weight_units", json!(["4294967311", "10000000019", "(2^60 / total) | 1"]));
     let ov = overflow_checks(run);
     run.evaluations += ov;
@@ -462,7 +487,7 @@ pub fn run(run: &mut Run) {
     run.states = cases.len() as u64 + ov;
     run.traces_validated = run.evaluations;
     run.distinct_nontrivial = nontrivial;
-    run.rule = "every nesting shape of WeightedPair over 2..4 marker leaves (left chains via with_item_and_weight incl. the Result-chained form, right chains, balanced and mixed trees) and DynWeighted lists of 1..4(5) (also with a selection made on the value after every building step) x every weight vector over 0..3 (thorough 0..5), and the same ratios scaled to totals just below 2^32, DynWeighted also with every weight multiplied by odd units above 2^32 (weights no u32 holds); all grid word sequences explored; the member law must equal w_i/sum exactly, zero-weight members unreachable, all-zero => zero-weight error, two selections from one combination value are independent (product law); u32-boundary weight vectors must build iff the total fits. non-trivial = scenarios with more than one reachable member".into();
+    run.rule = "every nesting shape of WeightedPair over 2..4 marker leaves (left chains via with_item_and_weight incl. the Result-chained form, right chains, balanced and mixed trees) and DynWeighted lists of 1..4(5) and long ones of up to 257 (1000) members (also with a selection made on the value after every building step) x every weight vector over 0..3 (thorough 0..5), and the same ratios scaled to totals just below 2^32, DynWeighted also with every weight multiplied by odd units above 2^32 (weights no u32 holds); all grid word sequences explored; the member law must equal w_i/sum exactly, zero-weight members unreachable, all-zero => zero-weight error, two selections from one combination value are independent (product law); u32-boundary weight vectors must build iff the total fits. non-trivial = scenarios with more than one reachable member".into();
     run.bound("max_leaves", json!(if quick { 4 } else { 5 }));
     run.bound("max_weight", json!(wmax));
     run.bound("per_scenario_execution_budget", json!(budget.to_string()));
